@@ -33,6 +33,7 @@ struct Shape {
     int64_t amount = 100000000;
     std::string leaf_kind;                // p2wsh-checksig / p2tr-script: "" = the signature script; "data" = a signature-free script over two small witness items
                                           // whose hex spelling is digits only (51, 1234); "p2sh-shaped" = OP_HASH160 <20 bytes> OP_EQUAL as witness script / leaf
+    int ht2 = -1;                         // hash type of the second and later signatures of a multi-signature spend (-1: the same as the first)
     bytes raw_script; std::vector<bytes> raw_items;   // leaf_kind "raw": this script over these witness items (bottom first)
     int annex_len = 4;                    // length of the annex (first byte 0x50) when one is attached
     int tap_checks = 1;                   // p2tr-script: the leaf checks its one signature this many times (<P> [2DUP CHECKSIGVERIFY]* CHECKSIG): BIP342 budget vs whole-witness size
@@ -92,14 +93,14 @@ inline Spend make_spend(const std::string& type, const Shape& sh, uint8_t ht = 1
     auto finish_legacy = [&](const bytes& spk, const bytes& script_code, std::function<bytes(const std::vector<bytes>&)> build_sig_script, std::vector<const Key*> signers) {
         S.fund = base_fund(sh, spk); S.tx = base_spend(sh, S.fund); S.spent = spent_list(sh, S.fund);
         std::vector<bytes> sigs;
-        for (auto* k : signers) sigs.push_back(sign_ecdsa(*k, sighash_legacy(S.tx, sh.pos, script_code, ht), ht));
+        for (auto* k : signers) { uint8_t h = (!sigs.empty() && sh.ht2 >= 0) ? uint8_t(sh.ht2) : ht; sigs.push_back(sign_ecdsa(*k, sighash_legacy(S.tx, sh.pos, script_code, h), h)); }
         S.tx.vin[sh.pos].script_sig = build_sig_script(sigs);
     };
     auto finish_v0 = [&](const bytes& spk, const bytes& script_sig, const bytes& script_code, std::function<std::vector<bytes>(const std::vector<bytes>&)> build_wit, std::vector<const Key*> signers) {
         S.fund = base_fund(sh, spk); S.tx = base_spend(sh, S.fund); S.spent = spent_list(sh, S.fund);
         S.tx.vin[sh.pos].script_sig = script_sig;
         std::vector<bytes> sigs;
-        for (auto* k : signers) sigs.push_back(sign_ecdsa(*k, sighash_bip143(S.tx, sh.pos, script_code, sh.amount, ht), ht));
+        for (auto* k : signers) { uint8_t h = (!sigs.empty() && sh.ht2 >= 0) ? uint8_t(sh.ht2) : ht; sigs.push_back(sign_ecdsa(*k, sighash_bip143(S.tx, sh.pos, script_code, sh.amount, h), h)); }
         S.tx.vin[sh.pos].witness = build_wit(sigs);
     };
     if (type == "p2pk") {
